@@ -50,10 +50,10 @@ def levels(tier):
         {"name": "special-hosts-wide", "pools": ["s"], "n": 2, "alphabet": ["page", "we"], "defaults": ["domain", "subdomain", "path1", "path2"],
          "anchored": [None, (0, 2, "path1"), (1, 2, "path2"), (2, 1, "subdomain"), (1, 3, "path1")]},
         {"name": "pages-n1-all", "pools": ["a", "b", "c"], "n": 1, "alphabet": ["page", "links"], "links_batch": 1,
-         "defaults": ["domain", "subdomain", "path1", "path2"],
-         "anchored": [None, (1, 3, "path1"), (1, 4, "path1"), (2, 3, "path2"), (2, 1, "subdomain"), (0, 3, "domain")]},
+         "defaults": ["domain", "subdomain", "path1"],
+         "anchored": [None, (1, 3, "path1"), (2, 3, "path2"), (2, 1, "subdomain")]},
         {"name": "handmade-wide", "pools": ["a"], "n": 2, "prelude": [["we", [[0, 3]]]], "alphabet": ["page", "we"],
-         "defaults": ["subdomain", "path1", "domain"], "anchored": [None, (2, 5, "path1"), (0, 3, "domain")]},
+         "defaults": ["subdomain", "domain"], "anchored": [None, (2, 5, "path1"), (0, 3, "domain")]},
         {"name": "L2", "pools": ["a"], "L": 2, "n": 2, "alphabet": ["page"], "defaults": ["domain"], "anchored": [None, (1, 3, "path1")]},
         {"name": "pages-n2-wide", "pools": ["a", "b"], "n": 2, "alphabet": ["page", "we"], "defaults": ["domain", "subdomain"],
          "anchored": [None, (1, 4, "path1")]},
